@@ -3,6 +3,8 @@ package sim
 import (
 	"fmt"
 	"sync"
+
+	"github.com/meshplus/bitxhub-model/pb"
 )
 
 // Template is a prelude world built once per process; every case starts from a directory copy of it.
@@ -79,5 +81,37 @@ func StdWorld(audit bool) *Template {
 		w.RegisterService(ChainAdmins["chainB"], "chainB", "s1", true, "")
 		w.RegisterService(ChainAdmins["chainB"], "chainB", "s2", true, FullID(w.BxhID, "chainA", "s2"))
 		w.RegisterService(ChainAdmins["chainC"], "chainC", "s1", true, "")
+	})
+}
+
+// MultiServices lists the services of the multi world (all ordered, no blacklists).
+var MultiServices = map[string][]string{"chainA": {"s1", "s2"}, "chainB": {"s1", "s2", "s3"}, "chainC": {"s1", "s2", "s3"}}
+
+// MultiWorld returns a template with enough destinations for one-to-many groups of up to 7 children.
+func MultiWorld(audit bool) *Template {
+	name := fmt.Sprintf("multi-audit=%v", audit)
+	return GetTemplate(name, NodeOpts{Audit: audit}, func(w *World, data map[string]string) {
+		w.Fund("1000000000000000000", ChainAdmins["chainA"], ChainAdmins["chainB"], ChainAdmins["chainC"], Outsiders[0], Outsiders[1])
+		for _, c := range []string{"chainA", "chainB", "chainC"} {
+			w.RegisterAppchain(ChainAdmins[c], c)
+		}
+		for _, c := range []string{"chainA", "chainB", "chainC"} {
+			// register all services of a chain in one block, approve them in another
+			var txs []pb.Transaction
+			for _, s := range MultiServices[c] {
+				txs = append(txs, w.RegisterServiceTx(ChainAdmins[c], c, s, true, ""))
+			}
+			var votes []pb.Transaction
+			for i, r := range w.Block(txs...) {
+				mustOK(r, fmt.Sprintf("register service %s %d", c, i))
+				pid := ProposalID(r)
+				for a := 0; a < w.Majority(); a++ {
+					votes = append(votes, w.VoteTx(w.N.Admins[a], pid, true))
+				}
+			}
+			for i, r := range w.Block(votes...) {
+				mustOK(r, fmt.Sprintf("vote %d", i))
+			}
+		}
 	})
 }
